@@ -1664,18 +1664,18 @@ struct const_subarray : array_types<T, D, ElementPtr, Layout> {
 
 	template<class TT, class... As>
 	friend constexpr auto operator==(const_subarray const& self, const_subarray<TT, D, As...> const& other) -> bool {
-		return (self.extension() == other.extension()) && (self.elements() == other.elements());
+		return (self.extensions() == other.extensions()) && (self.elements() == other.elements());
 	}
 	template<class TT, class... As>
 	friend constexpr auto operator!=(const_subarray const& self, const_subarray<TT, D, As...> const& other) -> bool {
-		return (self.extension() != other.extension()) ||  (self.elements() != other.elements());
+		return (self.extensions() != other.extensions()) ||  (self.elements() != other.elements());
 	}
 
 	constexpr auto operator==(const_subarray const& other) const -> bool {
-		return (this->extension() == other.extension()) && (this->elements() == other.elements());
+		return (this->extensions() == other.extensions()) && (this->elements() == other.elements());
 	}
 	constexpr auto operator!=(const_subarray const& other) const -> bool {
-		return (this->extension() != other.extension()) || (this->elements() != other.elements());
+		return (this->extensions() != other.extensions()) || (this->elements() != other.elements());
 	}
 
 	friend constexpr auto lexicographical_compare(const_subarray const& self, const_subarray const& other) -> bool {
